@@ -233,8 +233,9 @@ impl ThreadLocalCache {
         }
 
         // Try hot area allocation
+        let carve_size = self.carve_size(size);
         if let Some(ref mut hot_area) = self.hot_area {
-            if let Some(ptr) = hot_area.try_allocate(size) {
+            if let Some(ptr) = hot_area.try_allocate(carve_size) {
                 if let Some(stats) = &self.stats {
                     stats.hot_allocations.fetch_add(1, Ordering::Relaxed);
                 }
@@ -281,7 +282,7 @@ impl ThreadLocalCache {
         match HotArea::new(config.arena_size) {
             Ok(mut hot_area) => {
                 // Try to allocate from new hot area
-                if let Some(ptr) = hot_area.try_allocate(size) {
+                if let Some(ptr) = hot_area.try_allocate(self.carve_size(size)) {
                     if let Some(exhausted) = self.hot_area.replace(hot_area) {
                         self.retired_areas.push(exhausted);
                     }
@@ -344,6 +345,13 @@ impl ThreadLocalCache {
         // Reset lazy counter
         self.frag_inc = 0;
         Ok(())
+    }
+
+    /// Bytes to carve from a hot area for a request: the whole size class when the
+    /// request has one, because deallocate files the block under that class and it
+    /// then serves any request of the class
+    fn carve_size(&self, size: usize) -> usize {
+        self.size_to_list_index(size).map_or(size, |index| TLS_SIZE_CLASSES[index])
     }
 
     /// Convert size to free list index
